@@ -194,6 +194,8 @@ inductive Mutation where
   | listDel (c : Id) (i : Nat)
   | listSet (c : Id) (i : Nat) (x : Id)
   | listClear (c : Id)
+  | listSlice (c : Id) (i j : Nat) (xs : List Id)        -- `l[i:j] = xs`
+  | listStride (c : Id) (i step : Nat) (xs : List Id)    -- `l[i::step] = xs` (extended slice, same length)
   | listExtend (c : Id) (xs : List Id)
   | dictSet (c : Id) (k : Key) (x : Id)
   | dictDel (c : Id) (k : Key)
@@ -220,6 +222,15 @@ def storeField (h : Heap) (o : Id) (n : Name) (v : Val) : Heap :=
 def insertSorted (x : Id) : List Id → List Id
   | [] => [x]
   | y :: ys => if x ≤ y then x :: y :: ys else y :: insertSorted x ys
+
+/-- positions `i, i+step, …` below `len` (`range(i, len, step)`) -/
+def stridePos (i step len : Nat) : List Nat :=
+  (List.range len).filter (fun p => decide (i ≤ p) && (p - i) % step == 0)
+
+/-- `l[p] = x` for every pair -/
+def setAll (l : List Id) : List (Nat × Id) → List Id
+  | [] => l
+  | (p, x) :: ps => setAll (l.set p x) ps
 
 def runCont (E : Env) (st : St) (h' : Heap) (c : Id) (ev : Option CEvent) : Out :=
   match ev with
@@ -307,6 +318,25 @@ def mutate (E : Env) (st : St) : Mutation → Out
       (match l[i]? with
        | some y => runCont E st (st.h.upd c (.list (l.set i x))) c (some (.list i [y] [x]))
        | none => skip st)
+    | _ => skip st
+  | .listSlice c i j xs =>
+    -- trait_list_object.py `__setitem__` with a step-1 slice: event index = start
+    match st.h.get c with
+    | .list l =>
+      if i ≤ j ∧ j ≤ l.length then
+        runCont E st (st.h.upd c (.list (l.take i ++ xs ++ l.drop j))) c
+          (if ((l.drop i).take (j - i)).isEmpty && xs.isEmpty then none
+           else some (.list i ((l.drop i).take (j - i)) xs))
+      else skip st
+    | _ => skip st
+  | .listStride c i step xs =>
+    -- extended slice: as many new items as positions; the event carries the old items at them
+    match st.h.get c with
+    | .list l =>
+      if 2 ≤ step ∧ (stridePos i step l.length).length = xs.length ∧ xs.isEmpty = false then
+        runCont E st (st.h.upd c (.list (setAll l ((stridePos i step l.length).zip xs)))) c
+          (some (.list i ((stridePos i step l.length).filterMap (fun p => l[p]?)) xs))
+      else skip st
     | _ => skip st
   | .listClear c =>
     match st.h.get c with
